@@ -88,6 +88,11 @@ def run(prog, res):
   for f in prog.all_functions():
     seqkind.check_function(prog, res, f)
   res.floor('T3', 15)
+  from ..rules import hashkeys
+  for f in prog.all_functions():
+    if f.parent is None:
+      hashkeys.check_function(prog, res, f)
+  res.floor('T4', 8)
   res.floor('N0', 250)
   res.floor('V1', 60)
   res.floor('V1s', 3)
